@@ -3,13 +3,15 @@ import subprocess, os
 from .. import session, vlib
 
 RULE = ("every edge of Session.tla configurations whose request alphabet offers the unsafe names '', '.', '..', 'a/b', "
-        "'/a', 'a/' (and 65535-byte, NUL and high-byte names as safe ones) in every name position of every name-bearing "
+        "'/a', 'a/', './a', './..', 'a/../b', './/a', 'a/../..', '../a', 'a//b', '/', 'a/.', './', 'b/..' (and 65535-byte, NUL and high-byte names as safe ones) in every name position of every name-bearing "
         "request, 12 attach-name shapes, and walks through symlinks/sockets; the backend records every name argument and "
         "the kind of every Walk receiver; non-trivial = the final step carries an unsafe or odd name or walks >1 component")
 
 NAMEK = ["Tattach", "Twalk", "Twalkgetattr", "Tlcreate", "Tucreate", "Tmkdir", "Tumkdir", "Tsymlink", "Tusymlink",
          "Tmknod", "Tumknod", "Tlink", "Tunlinkat", "Trenameat", "Trename", "Tclunk"]
 BAD = ["", ".", "..", "a/b", "/a", "a/"]
+# names that a path-cleaning check would let through: their directory part cancels out
+BAD2 = ["./a", "./..", "a/../b", ".//a", "a/../..", "../a", "a//b", "/", "a/.", "./", "b/.."]
 ATT = ["", "/", "a", "/a", "a/b", "a//b", "//a", "/../b", "a/./b", "a/", "a/..", ".", "/a/"]
 
 
@@ -22,12 +24,13 @@ def run(tier, seed):
     odd = session.base(Names=["a", "LONG", "NUL", "HIGH"], BadNames=[".."], AttachNames=["", "LONG"], Kinds=NAMEK, InitWorld="empty")
     mix = session.base(Names=["a", "b", "s", "k"], BadNames=[], AttachNames=["", "s/a", "a/b"], InitWorld="mix",
                        Kinds=["Tattach", "Twalk", "Twalkgetattr", "Tclunk", "Tmkdir", "Tlcreate"])
+    bad2 = session.base(BadNames=BAD2, AttachNames=[""], Kinds=NAMEK)
     if tier == "quick":
         mc = [("bad-d3", dict(bad, MaxDepth=3)), ("mix-d3", dict(mix, MaxDepth=3))]
-        gen = [("bad-d2", dict(bad, MaxDepth=2), "bfs"), ("odd-d2", dict(odd, MaxDepth=2), "bfs"), ("mix-d3", dict(mix, MaxDepth=3), "bfs")]
+        gen = [("bad-d2", dict(bad, MaxDepth=2), "bfs"), ("bad2-d2", dict(bad2, MaxDepth=2), "bfs"), ("odd-d2", dict(odd, MaxDepth=2), "bfs"), ("mix-d3", dict(mix, MaxDepth=3), "bfs")]
     else:
         mc = [("bad-d4", dict(bad, MaxDepth=4)), ("mix-d4", dict(mix, MaxDepth=4))]
-        gen = [("bad-d3", dict(bad, MaxDepth=3), "bfs"), ("odd-d3", dict(odd, MaxDepth=3), "bfs"), ("mix-d4", dict(mix, MaxDepth=4), "bfs")]
+        gen = [("bad-d3", dict(bad, MaxDepth=3), "bfs"), ("bad2-d3", dict(bad2, MaxDepth=3), "bfs"), ("odd-d3", dict(odd, MaxDepth=3), "bfs"), ("mix-d4", dict(mix, MaxDepth=4), "bfs")]
     return session.run("C09", tier, seed, mc, gen, RULE, nontrivial)
 
 
